@@ -334,9 +334,27 @@ def r10_5(run):
            "an in-place update can change the constant flag of its target")
 
 
+def _element_aliases(fn_node) -> Dict[str, ast.expr]:
+    """locals bound exactly once (possibly in a tuple assignment) to an element of a sequence: `first = tensors[0]` / `first, last = tensors[0], tensors[-1]`"""
+    counts: Dict[str, int] = {}
+    vals: Dict[str, ast.expr] = {}
+    for n in own_nodes(fn_node):
+        if isinstance(n, ast.Name) and isinstance(n.ctx, (ast.Store, ast.Del)):
+            counts[n.id] = counts.get(n.id, 0) + 1
+        if isinstance(n, ast.Assign) and len(n.targets) == 1:
+            t, v = n.targets[0], n.value
+            pairs = [(t, v)] if isinstance(t, ast.Name) else (list(zip(t.elts, v.elts)) if isinstance(t, ast.Tuple) and isinstance(v, ast.Tuple)
+                                                                and len(t.elts) == len(v.elts) else [])
+            for tt, vv in pairs:
+                if isinstance(tt, ast.Name) and isinstance(vv, ast.Subscript) and isinstance(vv.value, ast.Name):
+                    vals[tt.id] = vv
+    return {k: v for k, v in vals.items() if counts.get(k) == 1}
+
+
 def r10_6(run):
     n = 0
     for fi in run.project.all_functions():
+        el = _element_aliases(fi.node)
         for c in own_nodes(fi.node):
             if not isinstance(c, ast.Call):
                 continue
@@ -349,6 +367,17 @@ def r10_6(run):
                         (isinstance(x, ast.Attribute) and x.attr == "constant" and isinstance(x.value, ast.Name) and x.value.id not in ("self",)):
                     src = x.value
             if src is None or not isinstance(src, (ast.Subscript, ast.Name)):
+                continue
+            a0 = c.args[0]
+            # an element of the operand sequence held in a local (`first = tensors[0]`) is that element
+            if isinstance(src, ast.Name) and src.id in el and isinstance(a0, ast.Name) and a0.id in el:
+                src_, a0_ = el[src.id], el[a0.id]
+                if norm(src_.value) == norm(a0_.value):
+                    n += 1
+                    ok = norm(src_) == norm(a0_)
+                    run.ob("R10.6", loc(fi, c), fi.short, f"{norm(c.func)}({norm(a0_)}, ..., constant=<flag of {norm(src_)}>)", ok,
+                           "the re-wrapped operand keeps its own constant flag" if ok else
+                           f"operand {norm(a0_)} is re-wrapped with the constant flag of {norm(src_)}: a non-constant operand silently stops receiving gradient")
                 continue
             if isinstance(c.args[0], (ast.Subscript, ast.Name)) and type(c.args[0]) is type(src) and isinstance(src, ast.Subscript) \
                     and norm(src.value) == norm(c.args[0].value):
